@@ -1918,3 +1918,35 @@ Proof.
   exists AUTHORITY, (B "GET"), (B "/s"), (repeat (B "x-123", B "v") 450).
   vm_compute. repeat split; reflexivity.
 Qed.
+
+(** ---------------------------------------------------------------------------------------------
+    HTTP/2: streams the client has reset
+    --------------------------------------------------------------------------------------------- *)
+Lemma h2_accept_loop_cont qs :
+  h2_accept_loop true qs =
+  (map (fun q => (hq_sid q, (if hq_limited q then 429 else hq_status q), negb (hq_limited q))) (filter (fun q => negb (hq_reset q)) qs), true).
+Proof.
+  induction qs as [|q qs IH]; [reflexivity|]. cbn [h2_accept_loop filter].
+  rewrite Bool.andb_false_r. rewrite IH. destruct (hq_reset q); reflexivity.
+Qed.
+
+Lemma reset_stream_is_its_own_lemma qs : h2_answered true qs = h2_reset_spec qs.
+Proof.
+  unfold h2_answered, h2_reset_spec. rewrite h2_accept_loop_cont. f_equal.
+  generalize (filter (fun q => negb (hq_reset q)) qs). intros l.
+  induction l as [|q l IH]; [reflexivity|].
+  cbn [map filter orb fst snd]. f_equal. exact IH.
+Qed.
+
+(** the code before the repair: three streams whose handlers are running, three the limiter answers, the second of which
+    the client has reset — only the 429 written before it arrives; with the repair all five *)
+Lemma reset_limited_stream_v0_refuted_lemma : exists qs : list h2req,
+  map hq_reset qs = [false; false; false; false; true; false] /\
+  h2_answered false qs = ([(7, 429)], false) /\
+  h2_answered true qs = ([(1, 200); (3, 200); (5, 200); (7, 429); (11, 429)], true) /\
+  h2_reset_spec qs = ([(1, 200); (3, 200); (5, 200); (7, 429); (11, 429)], true).
+Proof.
+  exists [mkH2Q 1 false false 200; mkH2Q 3 false false 200; mkH2Q 5 false false 200;
+          mkH2Q 7 false true 200; mkH2Q 9 true true 200; mkH2Q 11 false true 200].
+  vm_compute. repeat split; reflexivity.
+Qed.
